@@ -1611,8 +1611,12 @@ class SmartServerRepositoryIterRevisions(SmartServerRepositoryRequest):
             revision stream.
         """
         revision_ids = body_bytes.split(b"\n")
+        # The stream carries revision texts, so name the revision serializer:
+        # the inventory serializer format (e.g. 6 or 7 for rich-root and
+        # subtree knit/pack formats) is not necessarily a revision format.
+        serializer_format = self._repository._revision_serializer.format_name
         return SuccessfulSmartServerResponse(
-            (b"ok", self._repository.get_serializer_format()),
+            (b"ok", serializer_format.encode("ascii")),
             body_stream=self.body_stream(self._repository, revision_ids),
         )
 
